@@ -202,8 +202,9 @@ def _get_aliases(result_types: dict, package_name: str) -> dict[str, set[str]]:
                     fullname = key.fullname
                 elif isinstance(key, mypy_nodes.NameExpr) and isinstance(key.node, mypy_nodes.Var):
                     fullname = key.node.fullname
-                else:  # pragma: no cover
-                    raise TypeError("Received unexpected type while searching for aliases.")
+                else:
+                    # Everything else, e.g. a function of another module (module.function), is not an alias of a type
+                    continue
 
                 aliases[name].add(fullname)
 
